@@ -2240,3 +2240,43 @@ def r11(cx):
 
 
 RS.explanation += ' The status of a command without a command name is folded over its assignments (R11).'
+
+
+from rules.C13 import r3 as _c13_pipefail_fold
+from engine import Rule
+RS.rules.append(Rule('C02.R12', 'K-TABLE', 'the exit status of a pipeline: the last command, or with pipefail the RIGHTMOST failing command (zero '
+                     'if none failed) - the fold over the members takes a status iff it is a failure or pipefail is off (C13.R3)', _c13_pipefail_fold))
+RS.explanation += ' The pipeline status is the last or (pipefail) the rightmost failing member (R12 = C13.R3).'
+
+
+# ---------------------------------------------------------------------------------------
+# added after seed wave 3 (C02-s6: a trailing colon in $PATH no longer names the working directory)
+@RS.rule('C02.R1c', 'K-CALLERS', 'PATH search visits every item of the colon list, the empty ones included (an empty item - leading, doubled '
+         'or TRAILING colon, or an empty PATH - is the working directory, XBD 8.3): the scalar value is split with str::split(\':\'), '
+         'the one splitter that drops no item, and search_path walks that iterator')
+def r1c(cx):
+    F = cx.F
+    fn = "yash_env::variable::quirk::Expansion::<'_>::split"
+    h = F.hir_of(fn)
+    cx.fn(fn)
+    splits = [c for c in H.walk(h['body']) if c.get('k') == 'mcall' and re.match(r'core::str::<impl str>::r?split', str(c.get('def') or ''))]
+    cx.require(splits, 'Expansion::split no longer splits a scalar value with a str splitter (anchor moved: review how the colon list is cut)')
+    for c in splits:
+        d = c['def']
+        sep = [H.lit_value(a) for a in c.get('a', [])]
+        ok = d == 'core::str::<impl str>::split' and sep == [':']
+        cx.site('Expansion::split: scalar value cut with %s(%r)' % (d.split('::')[-1], sep))
+        if not ok:
+            cx.violation(fn, 'colon-list-drops-items:%s' % d.split('::')[-1], 'the colon list is cut with %s(%r), which does not yield every '
+                         'item of the list: with `PATH=/usr/bin:` (or PATH="") the trailing empty item, which names the working directory, '
+                         'is lost and a command that exists only there is "not found" (127)' % (d.split('::')[-1], sep),
+                         loc='%s:%s' % (h['file'], c.get('line') or h['line']))
+    # the consumer: PATH search walks Expansion::split
+    users = F.callers_of(lambda names, t: fn in names)
+    roots = sorted({b.root for b, blk, t in users if '::tests' not in b.root})
+    cx.site('Expansion::split is walked by: %s' % ', '.join(r.split('::')[-1] for r in roots))
+    if not any(r.endswith('::search_path') or 'command::search' in r for r in roots):
+        cx.violation(fn, 'path-search-bypasses-split', 'the PATH search no longer obtains its directories from Expansion::split: %s' % roots)
+
+
+RS.explanation += ' The PATH search visits every item of the colon list, empty ones included (R1c).'
